@@ -6,7 +6,7 @@ import problems
 from common import (NCPU, Machinery, Report, Scratch, nucs_env, read_ndjson, run_tlc, run_workers, run_workers_resilient,
                     validate_shards, warm_jit)
 
-NT, NC = 3, 4
+NT, NC = 4, 4
 
 
 def _exec(histories, env, tmp, tag, batch=40):
@@ -88,7 +88,8 @@ def c15(tier, seed, replay):
         rep.add(states=g.distinct + st, transitions=g.generated + tr, traces_validated_against_impl=judged)
         rep.cov["histories"] = {"generated_by_TLC": len(uniq), "executed_per_mode": len(histories), "max_ops": maxops,
                                 "templates": "queens(5) with shared domains, magic_sequence(4) with repeated variables, "
-                                             "a 4-variable model with an aliased variable", "configurations": NC,
+                                             "a 4-variable model with an aliased variable, the same model with other parameters "
+                                             "(a sibling: same algorithms, arities and domains)", "configurations": NC,
                                 "configuration_4": "custom-registered clone of the default variable heuristic, judged against configuration 1",
                                 "fresh_interpreter_runs": 4 * len(fresh)}
         # ---- input quantifier: random problems, 2 interpreted + 2 compiled runs each
